@@ -334,6 +334,7 @@ var verifC19Prop = vkit.NewProp([]string{c19.P}, "c19es", verifC19Gen, verifC19R
 func TestVerifC19Elasticsearch(t *testing.T) {
 	verifC19Setup()
 	defer verifC19Teardown()
+	verifC19Prop.CrashFile = true
 	verifC19Prop.Check(t)
 }
 
